@@ -510,6 +510,14 @@ def permits_come_back(ctx):
     addn = [n for c in adds for n in g.nodes_of(c)]
     ctx.ob(f, 'add_done_callback(release) after acquire on every normal path',
            bool(addn) and g.must_pass(g.nodes_of(acq), addn, [g.exit], g.NORMAL), 'a permit that is not released by the task future leaks (executor wedges)')
+    # the release callable is only ever handed to the task future: calling it directly gives the permit back while the
+    # task may still be queued or running (ThreadPoolExecutor.submit can raise after it queued the work item)
+    if relname is not None:
+        uses = [x for x in own_nodes(f.node) if isinstance(x, ast.Name) and x.id == relname and isinstance(x.ctx, ast.Load)]
+        bad = [x for x in uses if not (isinstance(x._parent, ast.Call) and x in x._parent.args and isinstance(x._parent.func, ast.Attribute) and x._parent.func.attr == 'add_done_callback')]
+        ctx.ob(f, f'{relname} is used only as the done-callback of the task future', not bad,
+               'a permit released by anything but the completion of its task lets one more task into the stage than the limit allows'
+               + (': ' + short(bad[0]._parent, 60) if bad else ''))
     direct = [c for c in own_calls(f.node) if isinstance(c.func, ast.Attribute) and c.func.attr == 'release' and norm(c.func.value) in (sem, 'self._semaphore')]
     for c in direct:
         h = q.in_handler(c)
